@@ -1,7 +1,7 @@
 #!/usr/bin/env python3
 """runs the property's check (quick) against every stored seeded change in a scratch worktree and records the verdict in meta.json"""
 import glob, json, os, re, subprocess, sys
-wt = '/tmp/seedwt'
+wt = os.environ.get('SEEDWT', '/tmp/seedwt')
 subprocess.run(['git', '-C', '/repo', 'worktree', 'remove', '--force', wt], capture_output=True)
 subprocess.run(['git', '-C', '/repo', 'worktree', 'add', '-q', '--detach', wt, 'HEAD'], check=True)
 only = sys.argv[1:] 
